@@ -4,7 +4,7 @@ Transliteration of
 * `core/src/core/transaction.rs`: `cut_through`, `aggregate`, `deaggregate`,
   `TransactionBody::{init, sort, verify_sorted, verify_cut_through, verify_features, with_output,
   with_kernel}`, `Transaction::validate_read`
-* `core/src/core/committed.rs`: `sum_kernel_offsets`, `to_secrets`
+* `core/src/core/committed.rs`: `sum_kernel_offsets`, `blind_sum_or_zero`, `to_secrets`
 * `core/src/core/block.rs`: `Block::from_reward`, `Block::hydrate_from`
 * `core/src/core/compact_block.rs`: `From<Block> for CompactBlock`
 
@@ -22,8 +22,9 @@ Representation (DESIGN §2.2, §2.3).  Everything is a natural number handed ove
   for injectivity where the code relies on "equal hash ⇒ equal element");
 * a kernel offset (`BlindingFactor`, 32 bytes) is the big-endian natural number of its bytes.
   Scalars are added modulo the secp256k1 group order `N`; zero and out-of-range values are
-  *skipped* (`to_secrets`), and a zero *sum* is an error because `SecretKey::from_slice` rejects
-  it (`secp.blind_sum`).
+  *skipped* (`to_secrets`).  `secp.blind_sum` itself refuses a zero *sum* (`SecretKey::from_slice`
+  rejects it); `committed::blind_sum_or_zero` catches exactly that case and yields the zero
+  blinding factor, so offsets that cancel are accepted (`Lemmas/TxAgg.lean: blindSumOrZero_eq`).
 
 Import-free (core only): linked into the driver. -/
 namespace GV.Tx
@@ -34,7 +35,9 @@ def N : Nat := 0xFFFFFFFFFFFFFFFFFFFFFFFFFFFFFFFEBAAEDCE6AF48A03BBFD25E8CD036414
 inductive Err
   /-- `Error::CutThrough` -/
   | cutThrough
-  /-- `Error::Committed(Secp(InvalidSecretKey))`: a blind sum came out as zero -/
+  /-- `Error::Committed(Secp(InvalidSecretKey))`: the error `blind_sum_or_zero` hands on when
+  `secp.blind_sum` fails for another reason than a zero sum.  Kept because the code has the
+  branch; `blindSumOrZero_eq` proves that it is never taken. -/
   | secp
 deriving DecidableEq, Repr
 
@@ -106,16 +109,31 @@ def cutThrough (ca cb ka kb : Nat → Nat) (ins outs : List Nat) : Except Err Cu
 /-- `to_secrets`: drop zero blinding factors and those that are not valid secret keys -/
 def toSecrets (l : List Nat) : List Nat := l.filter (fun x => x != 0 && decide (x < N))
 
-/-- `secp.blind_sum(positive, negative)` followed by `SecretKey::from_slice` -/
-def blindSum (pos neg : List Nat) : Except Err Nat :=
-  let s := (pos.sum + (neg.map (fun x => N - x % N)).sum) % N
-  if s = 0 then .error .secp else .ok s
+/-- the scalar `Σ positive − Σ negative` modulo the group order -/
+def scalarSum (pos neg : List Nat) : Nat := (pos.sum + (neg.map (fun x => N - x % N)).sum) % N
+
+/-- `secp.blind_sum(positive, negative)`: the sum, followed by `SecretKey::from_slice`, which
+refuses zero (`none` is `Err(InvalidSecretKey)`; the only way this call fails) -/
+def secpBlindSum (pos neg : List Nat) : Option Nat :=
+  let s := scalarSum pos neg
+  if s = 0 then none else some s
+
+/-- `committed::blind_sum_or_zero(secp, positive, negative)`: `blind_sum`, and when that fails,
+once more together with `ONE_KEY`; if that gives exactly `ONE_KEY` the keys cancel and the result
+is `BlindingFactor::zero()`, otherwise the first error is handed on. -/
+def blindSumOrZero (pos neg : List Nat) : Except Err Nat :=
+  match secpBlindSum pos neg with
+  | some s => .ok s
+  | none =>
+    match secpBlindSum (pos ++ [1]) neg with
+    | some s => if s = 1 then .ok 0 else .error .secp
+    | none => .error .secp
 
 /-- `sum_kernel_offsets(positive, negative)` with its "positive empty ⇒ zero" shortcut -/
 def sumKernelOffsets (pos neg : List Nat) : Except Err Nat :=
   let p := toSecrets pos
   let n := toSecrets neg
-  if p.isEmpty then .ok 0 else blindSum p n
+  if p.isEmpty then .ok 0 else blindSumOrZero p n
 
 /-! ## transactions -/
 
@@ -175,7 +193,7 @@ def deaggregate (K : Keys) (mk : Tx) (txs : List Tx) : Except Err Tx :=
     let kernels := pushNew tx.kernels [] mk.kernels
     let pos := toSecrets [mk.offset]
     let neg := toSecrets [tx.offset]
-    let off := if pos.isEmpty && neg.isEmpty then .ok 0 else blindSum pos neg
+    let off := if pos.isEmpty && neg.isEmpty then .ok 0 else blindSumOrZero pos neg
     match off with
     | .error e => .error e
     | .ok off => .ok ⟨off, false, sortBy K.ik inputs, sortBy K.ok outputs, sortBy K.kk kernels⟩
